@@ -1,10 +1,10 @@
 /-! # C20 model — names, imports and their resolution (`lena/**/*.py`, all modules)
 
 Property C20 speaks about *every* module, function and advertised name of lena at once, so the
-model is not a transcription of one function but a small **abstract machine for the part of
-Python's semantics the property depends on**, run on *facts* that a translator
+model is not a transcription of one function but a small **interpreter for the part of Python's
+semantics the property depends on**, run on *facts* that a translator
 (`harness/extract_facts.py`, Python `ast` + `symtable`) regenerates from the working tree on
-every check (`LenaModel/Gen/C20Facts.lean`).  What the machine models:
+every check (`LenaModel/Gen/C20Facts.lean`).  What is modelled:
 
 * `sys.modules` and the import machinery (`importlib._bootstrap._find_and_load`): a module is
   executed at most once, parents before children; while it is being executed it is already in
@@ -22,9 +22,11 @@ every check (`LenaModel/Gen/C20Facts.lean`).  What the machine models:
   imports that precede it in the body; regions whose execution is not certain (`if`, loops,
   handlers) are bracketed by `enter`/`leave` and leave no trace.
 
-Identifiers are interned by the translator: `Name` and `ModId` are natural numbers (the kernel
-evaluates the instance theorem, and compares numbers, not strings); names below
-`Facts.nBuiltins` are `dir(builtins)`.  No imports: executed by `drivers/C20.lean`. -/
+Identifiers are interned by the translator: `Name` and `ModId` are natural numbers; names below
+`Facts.nBuiltins` are `dir(builtins)`.  The interpreter state (all module `__dict__`s and
+`sys.modules`) is kept in two natural numbers used as arrays of fixed-width slots
+(section *State*), because the instance theorem is evaluated by the Lean kernel, which computes
+with numbers natively.  No imports: executed by `drivers/C20.lean`. -/
 
 namespace Lena.C20
 
@@ -90,9 +92,13 @@ structure Facts where
   nBuiltins : Nat
   /-- names starting with an underscore (not taken by `import *` without `__all__`) -/
   priv : List Name
+  /-- every name is `< nNames` (row length of the slot array) -/
+  nNames : Nat
+  /-- width of a slot in bits: `2 ^ slotBits ≥ mods.length + 2` -/
+  slotBits : Nat
   deriving Repr, Inhabited
 
-/-- the failures the property is about (plus the two ways the machine itself can give up) -/
+/-- the failures the property is about (plus the two ways the interpreter itself can give up) -/
 inductive Err where
   /-- `NameError: name 'n' is not defined` in module `m`, function `fn` (`none`: module level) -/
   | nameError (m : ModId) (fn : Option Name) (n : Name)
@@ -112,13 +118,73 @@ inductive Status where
   | done
   deriving DecidableEq, Repr, Inhabited
 
-/-- a namespace (`module.__dict__`, or the import-bound locals of a frame) -/
-abbrev Ns := List (Name × Val)
+/-! ## State
+
+`slots` is the two-dimensional array `module × name → slot`, row-major, `slotBits` bits per slot:
+`0` = the name is not bound in the module's `__dict__`, `1` = bound to an opaque object,
+`c + 2` = bound to the lena module `c`.  `status` holds two bits per module (`sys.modules`). -/
 
 structure State where
-  status : List Status
-  ns : List Ns
+  status : Nat
+  slots : Nat
   deriving DecidableEq, Repr, Inhabited
+
+def decodeVal : Nat → Option Val
+  | 0 => none
+  | 1 => some .opaque
+  | c + 2 => some (.mod c)
+
+def encodeVal : Option Val → Nat
+  | none => 0
+  | some .opaque => 1
+  | some (.mod c) => c + 2
+
+def decodeStatus : Nat → Status
+  | 0 => .absent
+  | 1 => .running
+  | _ => .done
+
+def encodeStatus : Status → Nat
+  | .absent => 0
+  | .running => 1
+  | .done => 2
+
+/-- make the kernel evaluate a number before it is passed on (`forceNat n k = k n`) -/
+def forceNat {α : Sort _} (n : Nat) (k : Nat → α) : α :=
+  match n with
+  | 0 => k 0
+  | n' + 1 => k (n' + 1)
+
+namespace State
+
+def slotIx (F : Facts) (m : ModId) (n : Name) : Nat := F.slotBits * (m * F.nNames + n)
+
+def rawGet (F : Facts) (σ : State) (m : ModId) (n : Name) : Nat :=
+  (σ.slots >>> slotIx F m n) &&& (2 ^ F.slotBits - 1)
+
+/-- `module m .__dict__.get(n)` -/
+def get (F : Facts) (σ : State) (m : ModId) (n : Name) : Option Val := decodeVal (rawGet F σ m n)
+
+/-- `module m .__dict__[n] = v` (`none`: `del`) -/
+def set (F : Facts) (σ : State) (m : ModId) (n : Name) (v : Option Val) : State :=
+  { σ with slots := σ.slots ^^^ ((rawGet F σ m n ^^^ encodeVal v) <<< slotIx F m n) }
+
+def statusOf (σ : State) (m : ModId) : Status := decodeStatus ((σ.status >>> (2 * m)) &&& 3)
+
+def setStatus (σ : State) (m : ModId) (s : Status) : State :=
+  { σ with status := σ.status ^^^ ((((σ.status >>> (2 * m)) &&& 3) ^^^ encodeStatus s) <<< (2 * m)) }
+
+/-- evaluate the state (`force σ k = k σ`) -/
+def force {α : Sort _} (σ : State) (k : State → α) : α :=
+  forceNat σ.status (fun a => forceNat σ.slots (fun b => k ⟨a, b⟩))
+
+/-- nothing imported, nothing bound -/
+def init : State := ⟨0, 0⟩
+
+end State
+
+/-- a small namespace: the import-bound locals of a function frame -/
+abbrev Ns := List (Name × Val)
 
 def lookup (n : Name) : Ns → Option Val
   | [] => none
@@ -128,37 +194,7 @@ def erase (n : Name) : Ns → Ns
   | [] => []
   | (k, v) :: r => if Nat.beq k n then r else (k, v) :: erase n r
 
-/-- `ns[n] = v` (at most one entry per name) -/
 def bindNs (n : Name) (v : Val) (ns : Ns) : Ns := (n, v) :: erase n ns
-
-namespace State
-
-def statusOf (σ : State) (m : ModId) : Status := σ.status.getD m .absent
-def nsOf (σ : State) (m : ModId) : Ns := σ.ns.getD m []
-def setStatus (σ : State) (m : ModId) (s : Status) : State := { σ with status := σ.status.set m s }
-def setNs (σ : State) (m : ModId) (ns : Ns) : State := { σ with ns := σ.ns.set m ns }
-def bindGlobal (σ : State) (m : ModId) (n : Name) (v : Val) : State := σ.setNs m (bindNs n v (σ.nsOf m))
-
-end State
-
-/-- a frame of the machine: the rest of a module's code or of a function body -/
-structure Frame where
-  /-- the module whose `__dict__` is the global namespace of this code -/
-  mod : ModId
-  /-- `none`: module-level code (its local namespace *is* the global one) -/
-  fn : Option Name
-  /-- locals bound by import statements (function frames only) -/
-  locals : Ns
-  evs : List Ev
-  /-- snapshots taken by `enter` -/
-  saved : List (State × Ns)
-  deriving Repr, Inhabited
-
-inductive Step where
-  | next (stack : List Frame) (σ : State)
-  | halt (σ : State)
-  | fail (e : Err)
-  deriving Repr, Inhabited
 
 namespace Facts
 
@@ -178,42 +214,57 @@ def isBuiltin (F : Facts) (n : Name) : Bool := Nat.blt n F.nBuiltins
 
 def isPriv (F : Facts) (n : Name) : Bool := F.priv.any (fun k => Nat.beq k n)
 
-def evCount (evs : List Ev) : Nat :=
-  evs.foldl (fun acc e => match e with | .star _ => acc + 2 | _ => acc + 1) 0
+/-- bound on the nesting depth of imports (a module being executed is never executed again) -/
+def depth (F : Facts) : Nat := F.mods.length + 2
 
-/-- number of events, counted generously (a `star` expands to at most `size` events) -/
-def size (F : Facts) : Nat :=
-  F.mods.foldl (fun acc M => acc + 4 + evCount M.evs + (M.all.getD []).length
-      + M.funcs.foldl (fun a f => a + 1 + evCount f.evs) 0) 0
-
-/-- steps granted to one run of the machine.  Every module is executed at most once between two
-`leave`s; running out of fuel is reported as `Err.outOfFuel`, never as success. -/
-def fuel (F : Facts) : Nat := 64 * (F.size + 16) + 1024
-
-def initState (F : Facts) : State :=
-  { status := F.mods.map (fun _ => Status.absent), ns := F.mods.map (fun _ => []) }
+/-- the layout constants fit the facts (checked once by `resolvesAll`) -/
+def layoutOk (F : Facts) : Bool :=
+  Nat.ble (F.mods.length + 2) (2 ^ F.slotBits) &&
+  F.mods.all (fun M =>
+    Nat.blt M.short F.nNames &&
+    (M.all.getD []).all (fun n => Nat.blt n F.nNames) &&
+    let evOk : Ev → Bool := fun e =>
+      match e with
+      | .bind n | .unbind n | .load n | .bindMod n _ => Nat.blt n F.nNames
+      | .attr r ch => Nat.blt r F.nNames && ch.all (fun a => Nat.blt a F.nNames)
+      | .fromName _ n a => Nat.blt n F.nNames && Nat.blt a F.nNames
+      | _ => true
+    M.evs.all evOk && M.funcs.all (fun f => f.evs.all evOk))
 
 end Facts
 
-/-- the name `n` as code of frame `fr` sees it: import-bound locals (functions), the module's
+/-- where a piece of code runs: the module whose `__dict__` is its global namespace, and the
+function it belongs to (`none`: module-level code, whose local namespace *is* the global one) -/
+structure Scope where
+  mod : ModId
+  fn : Option Name
+  deriving Repr, Inhabited
+
+/-- the name `n` as code in scope `sc` sees it: import-bound locals (functions), the module's
 globals, builtins (LEGB; enclosing function scopes are classified away by the translator) -/
-def lookupScope (F : Facts) (σ : State) (fr : Frame) (n : Name) : Option Val :=
-  match (if fr.fn.isSome then lookup n fr.locals else none) with
+def lookupScope (F : Facts) (σ : State) (sc : Scope) (loc : Ns) (n : Name) : Option Val :=
+  match (if sc.fn.isSome then lookup n loc else none) with
   | some v => some v
   | none =>
-    match lookup n (σ.nsOf fr.mod) with
+    match σ.get F sc.mod n with
     | some v => some v
     | none => if F.isBuiltin n then some .opaque else none
 
 /-- follow `v.a.b.c`: `none` if every attribute is there (or the value is opaque), else the
 module and the attribute it lacks -/
-def walk (σ : State) : Val → List Name → Option (ModId × Name)
+def walk (F : Facts) (σ : State) : Val → List Name → Option (ModId × Name)
   | _, [] => none
   | .opaque, _ => none
   | .mod p, a :: r =>
-    match lookup a (σ.nsOf p) with
+    match σ.get F p a with
     | none => some (p, a)
-    | some v => walk σ v r
+    | some v => walk F σ v r
+
+/-- the names bound in module `m` among `0 .. k-1`, that `import *` takes without `__all__` -/
+def publicNames (F : Facts) (σ : State) (m : ModId) : Nat → List Name
+  | 0 => []
+  | k + 1 =>
+    if (σ.get F m k).isSome && !F.isPriv k then publicNames F σ m k ++ [k] else publicNames F σ m k
 
 /-- the names `from m import *` asks for -/
 def starNames (F : Facts) (σ : State) (m : ModId) : List Name :=
@@ -221,120 +272,126 @@ def starNames (F : Facts) (σ : State) (m : ModId) : List Name :=
   | some M =>
     match M.all with
     | some l => l
-    | none => ((σ.nsOf m).map (·.1)).filter (fun n => !F.isPriv n)
+    | none => publicNames F σ m F.nNames
   | none => []
 
-/-- bind `n` in the scope code of `fr` writes to -/
-def bindIn (fr : Frame) (σ : State) (n : Name) (v : Val) : Frame × State :=
-  if fr.fn.isSome then ({ fr with locals := bindNs n v fr.locals }, σ)
-  else (fr, σ.bindGlobal fr.mod n v)
+/-- bind `n` in the scope code of `sc` writes to -/
+def bindIn (F : Facts) (sc : Scope) (loc : Ns) (σ : State) (n : Name) (v : Val) : State × Ns :=
+  if sc.fn.isSome then (σ, bindNs n v loc) else (σ.set F sc.mod n (some v), loc)
 
-def moduleFrame (m : ModId) (M : Module) : Frame :=
-  { mod := m, fn := none, locals := [], evs := M.evs, saved := [] }
+/-- the result of executing code: the new global state and the import-bound locals -/
+abbrev Res := Except Err (State × Ns)
 
-/-- one step of the machine -/
-def step (F : Facts) : List Frame → State → Step
-  | [], σ => .halt σ
-  | fr :: stack, σ =>
-    match fr.evs with
-    | [] =>
-      match fr.fn with
-      | some _ => .next stack σ
-      | none =>
-        -- end of a module's code: it is fully initialised, and becomes an attribute of its package
-        match F.modOf fr.mod with
-        | none => .fail .malformed
-        | some M =>
-          let σ := σ.setStatus fr.mod .done
-          match M.parent with
-          | none => .next stack σ
-          | some p => .next stack (σ.bindGlobal p M.short (.mod fr.mod))
-    | ev :: evs =>
-      let fr' : Frame := { fr with evs := evs }
-      match ev with
-      | .bind n => let (f, s) := bindIn fr' σ n .opaque; .next (f :: stack) s
-      | .bindMod n m => let (f, s) := bindIn fr' σ n (.mod m); .next (f :: stack) s
-      | .unbind n =>
-        if fr.fn.isSome then
-          match lookup n fr.locals with
-          | some _ => .next ({ fr' with locals := erase n fr.locals } :: stack) σ
-          | none => .fail (.nameError fr.mod fr.fn n)
-        else
-          match lookup n (σ.nsOf fr.mod) with
-          | some _ => .next (fr' :: stack) (σ.setNs fr.mod (erase n (σ.nsOf fr.mod)))
-          | none => .fail (.nameError fr.mod fr.fn n)
-      | .load n =>
-        match lookupScope F σ fr n with
-        | some _ => .next (fr' :: stack) σ
-        | none => .fail (.nameError fr.mod fr.fn n)
-      | .attr root chain =>
-        match lookupScope F σ fr root with
-        | none => .fail (.nameError fr.mod fr.fn root)
-        | some v =>
-          match walk σ v chain with
-          | none => .next (fr' :: stack) σ
-          | some (p, a) => .fail (.attrError fr.mod fr.fn root p a)
-      | .ensure m =>
-        match F.modOf m with
-        | none => .fail .malformed
-        | some M =>
-          match σ.statusOf m with
-          | .absent => .next (moduleFrame m M :: fr' :: stack) (σ.setStatus m .running)
-          | _ => .next (fr' :: stack) σ
-      | .fromName m n asn =>
-        match lookup n (σ.nsOf m) with
-        | some v => let (f, s) := bindIn fr' σ asn v; .next (f :: stack) s
-        | none =>
-          match F.childOf m n with
-          | none => .fail (.importError fr.mod fr.fn m n)
-          | some c =>
-            match F.modOf c with
-            | none => .fail .malformed
-            | some C =>
-              match σ.statusOf c with
-              -- the submodule is imported first; this event is looked at again afterwards
-              | .absent => .next (moduleFrame c C :: fr :: stack) (σ.setStatus c .running)
-              -- in sys.modules (possibly partially initialised): `IMPORT_FROM` falls back to it
-              | _ => let (f, s) := bindIn fr' σ asn (.mod c); .next (f :: stack) s
-      | .star m =>
-        .next ({ fr' with evs := (starNames F σ m).map (fun n => Ev.fromName m n n) ++ evs } :: stack) σ
-      | .noModule n => .fail (.noModule fr.mod fr.fn n)
-      | .enter => .next ({ fr' with saved := (σ, fr.locals) :: fr.saved } :: stack) σ
-      | .leave =>
-        match fr.saved with
-        | [] => .fail .malformed
-        | (s, l) :: rest => .next ({ fr' with locals := l, saved := rest } :: stack) s
+/-- `from m import n as asn`: attribute, else submodule (imported by `imp` if necessary) -/
+def execFrom (F : Facts) (imp : ModId → State → Except Err State) (sc : Scope)
+    (m : ModId) (n asn : Name) (loc : Ns) (σ : State) : Res :=
+  match σ.get F m n with
+  | some v => .ok (bindIn F sc loc σ asn v)
+  | none =>
+    match F.childOf m n with
+    | none => .error (.importError sc.mod sc.fn m n)
+    | some c =>
+      match imp c σ with
+      | .error e => .error e
+      | .ok σ' =>
+        -- after the import the submodule is an attribute of `m` (unless it is still being
+        -- executed: then `IMPORT_FROM` falls back to `sys.modules`)
+        match σ'.get F m n with
+        | some v => .ok (bindIn F sc loc σ' asn v)
+        | none => .ok (bindIn F sc loc σ' asn (.mod c))
 
-/-- run the machine until the stack is empty -/
-def run (F : Facts) : Nat → List Frame → State → Except Err State
+/-- the `from m import n` of every name of a star import, one after the other -/
+def execFroms (F : Facts) (imp : ModId → State → Except Err State) (sc : Scope) (m : ModId) :
+    List Name → Ns → State → Res
+  | [], loc, σ => .ok (σ, loc)
+  | n :: r, loc, σ =>
+    match execFrom F imp sc m n n loc σ with
+    | .error e => .error e
+    | .ok (σ', loc') => σ'.force (fun s => execFroms F imp sc m r loc' s)
+
+/-- execute a list of events; `imp` is the import machinery (`ensure`), `saved` the snapshots
+taken by `enter` -/
+def execEvs (F : Facts) (imp : ModId → State → Except Err State) (sc : Scope) :
+    List Ev → List (State × Ns) → Ns → State → Res
+  | [], _, loc, σ => .ok (σ, loc)
+  | ev :: rest, saved, loc, σ =>
+    match ev with
+    | .bind n =>
+      match bindIn F sc loc σ n .opaque with
+      | (σ', loc') => σ'.force (fun s => execEvs F imp sc rest saved loc' s)
+    | .bindMod n m =>
+      match bindIn F sc loc σ n (.mod m) with
+      | (σ', loc') => σ'.force (fun s => execEvs F imp sc rest saved loc' s)
+    | .unbind n =>
+      if sc.fn.isSome then
+        match lookup n loc with
+        | some _ => execEvs F imp sc rest saved (erase n loc) σ
+        | none => .error (.nameError sc.mod sc.fn n)
+      else
+        match σ.get F sc.mod n with
+        | some _ => (σ.set F sc.mod n none).force (fun s => execEvs F imp sc rest saved loc s)
+        | none => .error (.nameError sc.mod sc.fn n)
+    | .load n =>
+      match lookupScope F σ sc loc n with
+      | some _ => execEvs F imp sc rest saved loc σ
+      | none => .error (.nameError sc.mod sc.fn n)
+    | .attr root chain =>
+      match lookupScope F σ sc loc root with
+      | none => .error (.nameError sc.mod sc.fn root)
+      | some v =>
+        match walk F σ v chain with
+        | none => execEvs F imp sc rest saved loc σ
+        | some (p, a) => .error (.attrError sc.mod sc.fn root p a)
+    | .ensure m =>
+      match imp m σ with
+      | .error e => .error e
+      | .ok σ' => σ'.force (fun s => execEvs F imp sc rest saved loc s)
+    | .fromName m n asn =>
+      match execFrom F imp sc m n asn loc σ with
+      | .error e => .error e
+      | .ok (σ', loc') => σ'.force (fun s => execEvs F imp sc rest saved loc' s)
+    | .star m =>
+      match execFroms F imp sc m (starNames F σ m) loc σ with
+      | .error e => .error e
+      | .ok (σ', loc') => σ'.force (fun s => execEvs F imp sc rest saved loc' s)
+    | .noModule n => .error (.noModule sc.mod sc.fn n)
+    | .enter => execEvs F imp sc rest ((σ, loc) :: saved) loc σ
+    | .leave =>
+      match saved with
+      | [] => .error .malformed
+      | (s, l) :: more => execEvs F imp sc rest more l s
+
+/-- the import machinery: `importMod F k m σ` makes sure `m` is in `sys.modules`, executing its
+code if it is not (`k` bounds the nesting depth of imports) -/
+def importMod (F : Facts) : Nat → ModId → State → Except Err State
   | 0, _, _ => .error .outOfFuel
-  | k + 1, st, σ =>
-    match step F st σ with
-    | .halt σ' => .ok σ'
-    | .fail e => .error e
-    | .next st' σ' => run F k st' σ'
+  | k + 1, m, σ =>
+    match F.modOf m with
+    | none => .error .malformed
+    | some M =>
+      match σ.statusOf m with
+      | .absent =>
+        match execEvs F (importMod F k) ⟨m, none⟩ M.evs [] [] (σ.setStatus m .running) with
+        | .error e => .error e
+        | .ok (σ', _) =>
+          -- fully initialised; it becomes an attribute of its package
+          let σ'' := σ'.setStatus m .done
+          match M.parent with
+          | none => .ok σ''
+          | some p => .ok (σ''.set F p M.short (some (.mod m)))
+      | _ => .ok σ
 
 /-- a fresh interpreter executes the entry module `e` (`import lena.X; from lena.X import *`) -/
 def importEntry (F : Facts) (e : ModId) : Except Err State :=
-  match F.modOf e with
-  | none => .error .malformed
-  | some M => run F F.fuel [moduleFrame e M] (F.initState.setStatus e .running)
-
-def funcFrame (m : ModId) (f : Func) : Frame :=
-  { mod := m, fn := some f.name, locals := [], evs := f.evs, saved := [] }
+  importMod F F.depth e State.init
 
 /-- a call of `f` (defined in module `m`) in state `σ`: all its loads, in source order -/
 def callFn (F : Facts) (m : ModId) (f : Func) (σ : State) : Except Err State :=
-  run F F.fuel [funcFrame m f] σ
+  match execEvs F (importMod F F.depth) ⟨m, some f.name⟩ f.evs [] [] σ with
+  | .error e => .error e
+  | .ok (σ', _) => .ok σ'
 
 /-! ## The resolver (the executable check) -/
-
-/-- events that can change the global state when they occur in a function body -/
-def Ev.isImport : Ev → Bool
-  | .ensure _ | .fromName _ _ _ | .star _ => true
-  | _ => false
-
-def Func.isPure (f : Func) : Bool := f.evs.all (fun e => !e.isImport)
 
 def zipIdx {α} : List α → Nat → List (Nat × α)
   | [], _ => []
@@ -354,37 +411,27 @@ def isOk {ε α} : Except ε α → Bool
 /-- is `σ` one of `seen`? -/
 def seenIn (seen : List State) (σ : State) : Bool := seen.any (fun s => decide (s = σ))
 
-/-- every callable function runs without failure in every state of `seen`, and the functions
-that import something lead to states of `seen` again -/
-def closedB (F : Facts) (seen : List State) : Bool :=
-  seen.all (fun σ =>
-    (callables F σ).all (fun (m, f) =>
-      if f.isPure then isOk (callFn F m f σ)
-      else match callFn F m f σ with
-        | .ok σ' => seenIn seen σ'
-        | .error _ => false))
+/-- call every function of `fs` in `σ`: `none` if one fails, else the states reached that are
+not in `acc` yet, appended to `acc` -/
+def callAll (F : Facts) (σ : State) : List (ModId × Func) → List State → Option (List State)
+  | [], acc => some acc
+  | (m, f) :: r, acc =>
+    match callFn F m f σ with
+    | .error _ => none
+    | .ok σ' => σ'.force (fun s => callAll F σ r (if seenIn acc s then acc else acc ++ [s]))
 
-/-- successor states by the functions that import something -/
-def successors (F : Facts) (σ : State) : List State :=
-  (callables F σ).filterMap (fun (m, f) =>
-    if f.isPure then none
-    else match callFn F m f σ with
-      | .ok σ' => some σ'
-      | .error _ => none)
-
-def addNew (seen : List State) : List State → List State × List State
-  | [] => (seen, [])
-  | s :: r =>
-    if seenIn seen s then addNew seen r
-    else let (seen', new) := addNew (seen ++ [s]) r; (seen', s :: new)
-
-/-- breadth-first exploration of the states reachable by calls (bounded by `k` rounds) -/
-def explore (F : Facts) : Nat → List State → List State → List State
-  | 0, _, seen => seen
-  | _ + 1, [], seen => seen
+/-- breadth-first closure of a set of states under calls: `work` are the states still to be
+looked at, `seen` all states met so far (`work ⊆ seen`); `none` if a call fails or the bound
+`k` on the number of states is hit -/
+def explore (F : Facts) : Nat → List State → List State → Option (List State)
+  | _, [], seen => some seen
+  | 0, _ :: _, _ => none
   | k + 1, σ :: work, seen =>
-    let (seen', new) := addNew seen (successors F σ)
-    explore F k (work ++ new) seen'
+    match callAll F σ (callables F σ) seen with
+    | none => none
+    | some seen' => explore F k (work ++ seen'.drop seen.length) seen'
+
+def exploreBound : Nat := 64
 
 /-- the advertised names of the package the entry imports exist: every name in `__all__` of
 every package mentioned by a `star` of the entry module is bound in the entry's namespace
@@ -397,22 +444,20 @@ def exportedB (F : Facts) (e : ModId) (σ : State) : Bool :=
       match ev with
       | .star p =>
         match F.modOf p with
-        | some P => (P.all.getD []).all (fun n => (lookup n (σ.nsOf e)).isSome && (lookup n (σ.nsOf p)).isSome)
+        | some P => (P.all.getD []).all (fun n => (σ.get F e n).isSome && (σ.get F p n).isSome)
         | none => false
       | _ => true)
 
-def exploreBound : Nat := 64
-
-/-- the states the check looks at for entry `e` -/
-def seenOf (F : Facts) (σ : State) : List State := explore F exploreBound [σ] [σ]
+/-- the check for one entry point -/
+def resolvesEntry (F : Facts) (e : ModId) : Bool :=
+  match importEntry F e with
+  | .error _ => false
+  | .ok σ => σ.force (fun s => exportedB F e s && (explore F exploreBound [s] [s]).isSome)
 
 /-- **the check**: for every entry point, the import and the star import succeed, the advertised
 names exist, and in every state reachable afterwards every callable function resolves -/
 def resolvesAll (F : Facts) : Bool :=
-  F.entries.all (fun e =>
-    match importEntry F e with
-    | .error _ => false
-    | .ok σ => exportedB F e σ && seenIn (seenOf F σ) σ && closedB F (seenOf F σ))
+  F.layoutOk && F.entries.all (resolvesEntry F)
 
 /-! ## Diagnosis (what the driver prints; mirrors `resolvesAll`, but collects the failures) -/
 
@@ -423,11 +468,23 @@ structure Finding where
   err : Err
   deriving Repr
 
+/-- states reachable by calls, ignoring failing calls -/
+def reachStates (F : Facts) : Nat → List State → List State → List State
+  | _, [], seen => seen
+  | 0, _ :: _, seen => seen
+  | k + 1, σ :: work, seen =>
+    let succ := (callables F σ).filterMap (fun (m, f) =>
+      match callFn F m f σ with
+      | .ok σ' => if σ' = σ then none else some σ'
+      | .error _ => none)
+    let seen' := succ.foldl (fun acc s => if seenIn acc s then acc else acc ++ [s]) seen
+    reachStates F k (work ++ seen'.drop seen.length) seen'
+
 def diagnoseEntry (F : Facts) (e : ModId) : List Finding :=
   match importEntry F e with
   | .error err => [⟨e, none, err⟩]
   | .ok σ =>
-    (seenOf F σ).flatMap (fun s =>
+    (reachStates F exploreBound [σ] [σ]).flatMap (fun s =>
       (callables F s).filterMap (fun (m, f) =>
         match callFn F m f s with
         | .ok _ => none
@@ -437,18 +494,32 @@ def diagnose (F : Facts) : List Finding := F.entries.flatMap (diagnoseEntry F)
 
 /-! ## Static import closure (a second, order-free description of what `import X` loads) -/
 
-/-- modules named by the import events of a list of events (`ensure`, and the submodule a
-`from m import n` falls back to when `n` is no top-level binding of `m`) -/
+/-- modules named by the `ensure` events of a list of events -/
 def importTargets (evs : List Ev) : List ModId :=
   evs.filterMap (fun e => match e with | .ensure m => some m | _ => none)
 
 def insertNew (xs : List ModId) (m : ModId) : List ModId := if xs.any (Nat.beq m) then xs else xs ++ [m]
 
-/-- one round: add the module-level `ensure` targets of every module already in the set -/
+/-- the names a list of events may bind (module level) -/
+def boundNames (evs : List Ev) : List Name :=
+  evs.filterMap (fun e => match e with
+    | .bind n => some n | .bindMod n _ => some n | .fromName _ _ a => some a | _ => none)
+
+/-- submodules a module-level `from m import n` falls back to: `m.n` exists and `n` is not a
+name that `m`'s own code binds -/
+def fromTargets (F : Facts) (evs : List Ev) : List ModId :=
+  evs.filterMap (fun e => match e with
+    | .fromName m n _ =>
+      match F.childOf m n, F.modOf m with
+      | some c, some M => if (boundNames M.evs).any (Nat.beq n) then none else some c
+      | _, _ => none
+    | _ => none)
+
+/-- one round: add the import targets of every module already in the set -/
 def closureRound (F : Facts) (xs : List ModId) : List ModId :=
   xs.foldl (fun acc m =>
     match F.modOf m with
-    | some M => (importTargets M.evs).foldl insertNew acc
+    | some M => (importTargets M.evs ++ fromTargets F M.evs).foldl insertNew acc
     | none => acc) xs
 
 def closureIter (F : Facts) : Nat → List ModId → List ModId
@@ -459,7 +530,11 @@ def closureIter (F : Facts) : Nat → List ModId → List ModId
 def importClosure (F : Facts) (m : ModId) : List ModId := closureIter F F.mods.length [m]
 
 /-- the modules in `sys.modules` in state `σ` -/
-def loadedMods (σ : State) : List ModId :=
-  (zipIdx σ.status 0).filterMap (fun (i, s) => match s with | .absent => none | _ => some i)
+def loadedMods (F : Facts) (σ : State) : List ModId :=
+  (List.range F.mods.length).filter (fun i => σ.statusOf i != .absent)
+
+/-- the names bound in module `m` -/
+def boundIn (F : Facts) (σ : State) (m : ModId) : List (Name × Val) :=
+  (List.range F.nNames).filterMap (fun n => (σ.get F m n).map (fun v => (n, v)))
 
 end Lena.C20
